@@ -65,7 +65,12 @@ fn one_run(a: &Args, seed: u64, round: u64, t: &mut Trace, stats: &mut Value) ->
                 if r.random_range(0..6) == 0 { std::thread::yield_now(); }
                 if r.random_range(0..25) == 0 { std::thread::sleep(std::time::Duration::from_micros(r.random_range(10..400))); }
                 match tab.as_mut() {
-                    None => { let q = Stmt::Select(rand_select(&mut r, &ro, true)); let o = exec(&db, &q.sql()); push(Ev::Auto(q, o)); }
+                    None => {
+                        // now and then a statement that panics inside the executor (division by zero, recorded finding): it must come back as an
+                        // error while other clients' statements are queued behind it, and the pool must keep all its workers
+                        let q = if r.random_range(0..8) == 0 { Stmt::Opaque { sql: format!("SELECT {0}.id / 0 FROM {0}", ro[0].def.name), ro: true } } else { Stmt::Select(rand_select(&mut r, &ro, true)) };
+                        let o = exec(&db, &q.sql()); push(Ev::Auto(q, o));
+                    }
                     Some(tb) => {
                         let upd = tb.updatable && sid % 2 == 1;   // every other writer updates its table
                         let c = r.random_range(0..100);
